@@ -14,16 +14,20 @@ variable {V : Type}
 inductive Op (V : Type) where
   | insert (id : Nat) (v : V)
   | unset (id : Nat)
+  /-- `get_mut(id)` and, if it returns a reference, a write of `v` through it -/
+  | getMut (id : Nat) (v : V)
 
 /-- One step of the model, with the value the Rust call returns. -/
 def step (m : M V) : Op V → M V × Option V
   | .insert id v => Mapping.insert m id v
   | .unset id => Mapping.unset m id
+  | .getMut id v => Mapping.getMut m id v
 
 /-- One step of the reference map. -/
 def refStep (r : Nat → Option V) : Op V → (Nat → Option V) × Option V
   | .insert id v => (fun j => if j = id then some v else r j, r id)
   | .unset id => (fun j => if j = id then none else r j, r id)
+  | .getMut id v => (fun j => if j = id then (r id).map (fun _ => v) else r j, r id)
 
 def run (m : M V) (ops : List (Op V)) : M V := ops.foldl (fun m op => (step m op).1) m
 def refRun (r : Nat → Option V) (ops : List (Op V)) : Nat → Option V :=
@@ -62,6 +66,36 @@ theorem step_refines (m : M V) (r : Nat → Option V) (h : Represents m r) (op :
     · intro j
       show Mapping.get (Mapping.unset m id).1 j = if j = id then none else r j
       rw [get_eq_slot, slot_unset m hi.toShape, ← get_eq_slot, hg]
+
+  | getMut id v =>
+    have hs : slot m id = r id := by rw [← get_eq_slot, hg]
+    cases hr : r id with
+    | none =>
+      rw [hr] at hs
+      have he := getMut_absent m id v hs
+      refine ⟨?_, ?_, ?_⟩
+      · show (Mapping.getMut m id v).2 = r id
+        rw [he, hr]
+      · show Inv (Mapping.getMut m id v).1
+        rw [he]; exact hi
+      · intro j
+        show Mapping.get (Mapping.getMut m id v).1 j = if j = id then (r id).map (fun _ => v) else r j
+        rw [he, hg]
+        split
+        · next hj => subst hj; rw [hr]; rfl
+        · rfl
+    | some old =>
+      rw [hr] at hs
+      have he := getMut_eq_insert m hi id v old hs
+      refine ⟨?_, ?_, ?_⟩
+      · show (Mapping.getMut m id v).2 = r id
+        rw [he, hr]
+      · show Inv (Mapping.getMut m id v).1
+        rw [he]; exact inv_insert m hi id v
+      · intro j
+        show Mapping.get (Mapping.getMut m id v).1 j = if j = id then (r id).map (fun _ => v) else r j
+        rw [he, get_eq_slot, slot_insert m hi.toShape, ← get_eq_slot, hg, hr]
+        rfl
 
 /-- (a) `get` after any operation sequence agrees with the reference map. -/
 theorem run_represents (m : M V) (r : Nat → Option V) (h : Represents m r) (ops : List (Op V)) :
